@@ -204,8 +204,12 @@ Fixpoint sniff_rounds (answers : list (bool * N)) (dl : N) (buf : list N) (c : c
       | Some EEof =>
           (* ReadFromOnce turns EOF into nil: no dataError; the parser sees the same bytes again *)
           if nonempty buf2 && more
-          then (buf2, Some ETimeout, c2, s3, N.max t dl, true)   (* busy loop until the deadline expires *)
+          then (buf2, None, c2, s3, N.max t dl, true)   (* busy loop until the deadline expires; see ETimeout *)
           else (buf2, None, c2, s3, t, false)
+      | Some ETimeout =>
+          (* the sniff deadline expiring is not recorded as dataError (repaired in 9ef4b71): the relay's
+             first Read goes to the socket *)
+          (buf2, None, c2, s3, t, false)
       | Some e => (buf2, Some e, c2, s3, t, false)
       | None => if more then sniff_rounds rest dl buf2 c2 s3 t else (buf2, None, c2, s3, t, false)
       end
